@@ -228,7 +228,7 @@ theorem LiveInv_startWorker {k : Nat} {w : Worker} (hL : LInv s) (hV : LiveInv s
     intro x hx hne; rw [hws]; exact mem_upd.2 (Or.inr ⟨hx, hne⟩)
   have hlive : liveCnt (setWorker s { w with pc := .bfClear }) = liveCnt s := by
     have := liveCnt_upd (s' := setWorker s { w with pc := .bfClear }) (w' := { w with pc := .bfClear }) hL hwm hws
-    simp [hpc] at this; exact this
+    simp [hpc, gone] at this; exact this
   refine ⟨?_, ?_, ?_, ?_, ?_⟩
   · obtain ⟨l1, l2, l3, l4⟩ := lk
     constructor
@@ -302,7 +302,7 @@ theorem CntI_join {t : St} {wid : Nat} (hL : LInv s) (ct : CntI s) (hr : s.rpc =
   have hpend : pending s = wid :: s.replQ.filterMap id := by unfold pending; simp [hr]
   obtain ⟨k1, k2, k3, k4⟩ := ct
   have hl : liveCnt t = liveCnt s + 1 := by
-    unfold liveCnt; rw [h1]; simp [List.countP_append, mkWorker]
+    unfold liveCnt; rw [h1]; simp [List.countP_append, mkWorker, gone]
   have hpl : (pending t).length + 1 = (pending s).length := by
     rw [hpend]; unfold pending; rw [h2, h3]; simp
   have hlen : t.procs.length = s.procs.length := by rw [h4, List.length_map]
